@@ -17,7 +17,7 @@ def sh(*a, **k):
 
 
 def main():
-    sel = sys.argv[1:]
+    sel = [a for a in sys.argv[1:] if not a.startswith('--')]
     ids = sorted(os.listdir(os.path.join(HERE, "seeded")))
     if sel:
         ids = [i for i in ids if i in sel or i.split("-")[0] in [s.upper() for s in sel]]
@@ -55,6 +55,26 @@ def main():
         sh("git", "-C", REPO, "worktree", "remove", "--force", tree)
     for r in rows:
         print(*r)
+    if "--md" in sys.argv:
+        lines = ["Every change was produced by an independent sub-agent that saw only the property text and its own scratch worktree, "
+                 "passes the 127 tests, and has a demonstration (seeded/<id>/demo.py) that fails with it; each was re-confirmed in a "
+                 "scratch worktree before it was kept. `tools/seed_eval.py` applies each patch to a scratch worktree of /repo's HEAD and "
+                 "runs the property's check against it (quick, then thorough if quick is silent).", "",
+                 "| seed | property | verdict | tier | rule(s) | function(s) | change |", "|---|---|---|---|---|---|---|"]
+        for sid, prop, det, info in rows:
+            meta = json.load(open(os.path.join(HERE, "seeded", sid, "meta.json")))
+            try:
+                out = json.loads(info)
+                tier = [t for t, (rc, _) in out.items() if rc == 1]
+                tier = tier[0] if tier else "-"
+                rules = ", ".join(out[tier][1]) if tier != "-" else ""
+            except Exception:
+                tier, rules = "-", info
+            fns = ", ".join(meta.get("functions", []))
+            lines.append(f"| {sid} | {prop} | {det} | {tier} | {rules} | {fns} | {' '.join(meta.get('summary', '').split())[:220]} |")
+        n = sum(1 for r in rows if r[2] == "DETECTED")
+        lines += ["", f"{n} of {len(rows)} seeded changes are reported."]
+        open(os.path.join(HERE, "seeded", "RESULTS.md"), "w").write("\n".join(lines) + "\n")
 
 
 if __name__ == "__main__":
